@@ -3,7 +3,7 @@ every step; law of each edit checked on the physical projections."""
 import json, os
 import vlib, gl, session
 
-ALL_TEMPLATES = '{"tri2d", "trav2d", "dist2d", "polar3d", "vec3d", "lev1d", "free2d", "fstat3d", "fstat2d", "freevec3d", "freelev1d"}'
+ALL_TEMPLATES = '{"tri2d", "trav2d", "dist2d", "polar3d", "vec3d", "lev1d", "free2d", "fstat3d", "fstat2d", "freevec3d", "freelev1d", "vecmix3d"}'
 
 
 def generate(ctx, name, consts, timeout=1500, simulate=None):
